@@ -164,6 +164,28 @@ def run_case(rng, tier, case):
     vs = float(sum(e.ret.value for e in evs))
     v_split = float(rs.res.value)
     case.check('split.value_is_sum_of_intervals', len(evs) == n_int and abs(vs - v_split) <= 1e-9 * (1 + abs(vs)), nonvacuous=n_int >= 2, intervals=n_int, sum=vs, value=v_split)
+    if len(evs) == n_int and rng.random() < 0.35:
+        # the split problem optimised a second time (another solver run on the same object): the interval problems are the ones set up, and the
+        # result is the same sum over the same intervals
+        from ..canon import problem_diff
+        try:
+            with env.quiet():
+                res2 = rs.op.optimize()
+            dd = None
+            for k_, (o_, e_) in enumerate(zip(rs.op.ops, evs)):
+                if e_.snap is not None:
+                    dd = problem_diff(Snap(o_), e_.snap, rtol=1e-12, compare_mapping=False)
+                    if dd is not None:
+                        dd = 'interval %d: %s' % (k_, dd); break
+            case.check('split.interval_problems_unchanged_by_optimize', dd is None, nonvacuous=n_int >= 2, diff=dd)
+            if not isinstance(res2, str):
+                tol2 = (1e-6 if not gen.is_mip(spec) else 2e-3) * (1 + abs(v_split))
+                case.check('split.second_optimize_same_result', len(np.asarray(res2.x)) == len(np.asarray(rs.res.x)) and abs(float(res2.value) - v_split) <= tol2,
+                           nonvacuous=n_int >= 2, first=v_split, second=float(res2.value), n_first=len(np.asarray(rs.res.x)), n_second=len(np.asarray(res2.x)))
+            else:
+                case.check('split.second_optimize_same_result', False, first=v_split, second=str(res2))
+        except Exception as e:
+            case.check('split.second_optimize_same_result', False, error='%s: %s' % (type(e).__name__, str(e)[:160]))
     ms = rs.op.mapping
     case.check('split.steps_on_original_grid', len(ms) == 0 or (int(ms['time_step'].min()) >= 0 and int(ms['time_step'].max()) < T), T=T)
     xs = np.asarray(rs.res.x, float)
